@@ -6,7 +6,7 @@ Only compiles (cargo check through the axfacts driver); never runs the engine.
 usage: selftest/run.py [neutral|mutants|seeded|all] [name-filter]"""
 import json, os, subprocess, sys, glob, re
 V = os.path.dirname(os.path.dirname(os.path.abspath(__file__)))
-WT = os.environ.get("SELFTEST_WT", "/tmp/axv_selftest")
+WT = os.environ.get("SELFTEST_WT", "/tmp/axv_selftest_%d" % os.getpid())
 PROPS = [c["property_id"] for c in json.load(open(os.path.join(V, "MANIFEST.json")))["checks"]]
 
 def sh(cmd, cwd=None, env=None):
@@ -14,9 +14,18 @@ def sh(cmd, cwd=None, env=None):
     r = subprocess.run(cmd, shell=True, cwd=cwd, stdout=subprocess.PIPE, stderr=subprocess.STDOUT, text=True, env=e)
     return r.returncode, r.stdout
 
+def cleanup():
+    """remove the scratch worktree again (nothing is kept under /tmp between runs)"""
+    sh("git -C /repo worktree remove --force %s" % WT)
+    sh("rm -rf %s" % WT)
+    sh("git -C /repo worktree prune")
+
+
 def checks(props):
     out = {}
-    env = {"AXV_REPO": WT, "AXV_TARGET_DIR": "/tmp/axv_selftest_target", "AXV_EVIDENCE_DIR": "/tmp/axv_selftest_evidence"}
+    # the scratch worktree shares the dependency build of the normal extraction (extraction is serialised
+    # by the facts lock and always deletes the workspace members' fingerprints)
+    env = {"AXV_REPO": WT, "AXV_EVIDENCE_DIR": os.path.join(V, ".cache", "selftest_evidence")}
     for p in props:
         rc, o = sh("./axv check %s" % p, V, env)
         if rc == 2:
@@ -25,7 +34,47 @@ def checks(props):
             out[p] = [l.strip().split(" at ")[0].replace("violation ", "") for l in o.splitlines() if l.strip().startswith("violation")]
     return out
 
+def for_property(prop):
+    """positive controls of one property: every recorded mutant whose expectation names a rule of this
+    property is applied to the scratch worktree and must be reported by this property's check.
+    Prints one JSON object: {"run": n, "caught": n, "missed": [...], "items": [...]}"""
+    if not os.path.isdir(WT):
+        sh("git -C /repo worktree add -q --detach %s HEAD" % WT)
+    sh("git checkout -q --detach $(git -C /repo rev-parse HEAD) && git checkout -- . && git clean -fdq crates", WT)
+    items = []
+    for f in sorted(glob.glob(os.path.join(V, "selftest/mutants/*.diff"))):
+        exp = json.load(open(f[:-5] + ".json"))
+        items.append((os.path.basename(f)[:-5], f, exp))
+    for d in sorted(glob.glob(os.path.join(V, "seeded/*/"))):
+        meta = json.load(open(os.path.join(d, "meta.json")))
+        exp = meta.get("expected_detection") or {}
+        if exp.get("keys") and not exp.get("undetected"):
+            items.append((os.path.basename(d.rstrip("/")), os.path.join(d, "patch.diff"), exp))
+    res = {"run": 0, "caught": 0, "missed": [], "items": []}
+    for name, f, exp in items:
+        mine = [k for k in exp.get("keys", []) if k.startswith(prop + ".")]
+        if not mine:
+            continue
+        sh("git checkout -- . && git clean -fdq crates", WT)
+        rc, o = sh("git apply %s" % f, WT)
+        if rc != 0:
+            res["missed"].append(name + " (patch does not apply)")
+            continue
+        got = checks([prop]).get(prop, [])
+        ok = all(any(w in k for k in got) for w in mine)
+        res["run"] += 1
+        res["caught"] += 1 if ok else 0
+        res["items"].append({"mutant": name, "expected": mine, "reported": got[:6], "caught": ok})
+        if not ok:
+            res["missed"].append(name)
+    cleanup()
+    print(json.dumps(res))
+    return 0
+
+
 def main():
+    if len(sys.argv) > 2 and sys.argv[1] == "prop":
+        return for_property(sys.argv[2])
     what = sys.argv[1] if len(sys.argv) > 1 else "all"
     flt = sys.argv[2] if len(sys.argv) > 2 else ""
     if not os.path.isdir(WT):
@@ -68,7 +117,7 @@ def main():
                 ok = all(any(want in k for k in allk) for want in exp["keys"])
                 print("%-8s %-50s %s" % (kind, name, "caught: %s" % exp["keys"] if ok else "MISSED expected %s, got %s" % (exp["keys"], got)))
         fails += 0 if ok else 1
-    sh("git checkout -- . && git clean -fdq crates", WT)
+    cleanup()
     print("selftest: %d item(s), %d failure(s)" % (len(items), fails))
     return 1 if fails else 0
 
